@@ -532,6 +532,32 @@ func c12Reader(r *eng.Run) {
 		}
 		r.Probe("reader_reused_across_messages")
 	}
+	// A Reader attached to a buffer that is still empty (the application's
+	// receive buffer): the compressed message is put there afterwards.
+	if r.T.Chance(sim.LHist, 1, 4) {
+		m := drawFlateMsg(r)
+		if len(m) > 3000 {
+			m = m[:3000]
+		}
+		comp := deflateIndependent(m, r.T.Int(sim.LCfg, 4), 5)
+		var buf bytes.Buffer
+		fr := wsflate.NewReader(&buf, drawDtor(r))
+		if r.T.Bool(sim.LHist) {
+			// ... after an earlier message through the same Reader.
+			buf.Write(deflateIndependent([]byte("first"), 1, 5))
+			if got, err := io.ReadAll(fr); err != nil || string(got) != "first" {
+				r.Failf("roundtrip_mismatch", "wsflate.Reader over a bytes.Buffer, first message: %q, %v", got, err)
+			}
+			buf.Reset()
+			fr.Reset(&buf)
+		}
+		buf.Write(comp)
+		got, err := io.ReadAll(fr)
+		if err != nil || !bytes.Equal(got, m) {
+			r.Failf("roundtrip_mismatch", "wsflate.Reader attached to an empty bytes.Buffer that was filled afterwards (%d bytes): got %d bytes, err %v", len(m), len(got), err)
+		}
+		r.Probe("reader_attached_to_a_buffer_filled_later")
+	}
 	// One Reader over one source that carries message after message: it
 	// reports io.EOF at the end of each and then goes on with the next (what
 	// a frame reader does), through Read or ReadByte.
@@ -604,6 +630,33 @@ func (s *seqSource) ReadByte() (byte, error) {
 
 func c12Helpers(r *eng.Run) {
 	r.SetEntry("wsflate.Helper")
+	if r.T.Chance(sim.LLen, 1, 120) {
+		// Megabytes of one byte value: the best case for DEFLATE (a little
+		// over 1000:1), the worst for whoever bounds output by input.
+		n := (4 + r.T.Int(sim.LLen, 5)) << 20
+		big := bytes.Repeat([]byte{byte(r.T.Int(sim.LPayKind, 256))}, n)
+		p, err := wsflate.DefaultHelper.Compress(big)
+		if err != nil {
+			r.Failf("unexpected_error", "Compress(%d equal bytes): %v", n, err)
+		}
+		if got, ierr := inflateIndependent(p); ierr != nil || !bytes.Equal(got, big) {
+			r.Failf("roundtrip_mismatch", "Compress(%d equal bytes) gave %d bytes that do not inflate to the original (%v, %d bytes)", n, len(p), ierr, len(got))
+		}
+		var back []byte
+		if r.T.Bool(sim.LCfg) {
+			back, err = wsflate.DefaultHelper.Decompress(p)
+		} else {
+			var df ws.Frame
+			df, err = wsflate.DecompressFrame(ws.Frame{Header: ws.Header{Fin: true, Rsv: 4, OpCode: ws.OpBinary, Length: int64(len(p))}, Payload: p})
+			back = df.Payload
+		}
+		if err != nil || !bytes.Equal(back, big) {
+			r.Failf("roundtrip_mismatch", "%d equal bytes compressed to %d: the decompressing helper returned %d bytes, err %v", n, len(p), len(back), err)
+		}
+		r.Probe("helper_payload_of_megabytes_compressing_1000_to_1")
+		r.Res.Nontrivial = true
+		return
+	}
 	msg := drawFlateMsg(r)
 	if len(msg) > 5000 && !r.T.Chance(sim.LLen, 1, 3) {
 		msg = msg[:5000]
